@@ -426,6 +426,46 @@ impl Array4 {
     }
 }
 
+#[cfg(feature = "verif-hooks")]
+impl Array4 {
+    /// Verification hook: (registers, raw nibbles, cur_min, num_at_cur_min, aux pairs, hip, kxq0,
+    /// kxq1, out_of_order).
+    #[allow(clippy::type_complexity)]
+    pub(super) fn verif_parts(
+        &self,
+    ) -> (
+        Vec<u8>,
+        Vec<u8>,
+        u8,
+        u32,
+        Vec<(u32, u8)>,
+        f64,
+        f64,
+        f64,
+        bool,
+    ) {
+        let k = 1u32 << self.lg_config_k;
+        let regs = (0..k).map(|s| self.get(s)).collect();
+        let raw = (0..k).map(|s| self.get_raw(s)).collect();
+        let aux = self
+            .aux_map
+            .as_ref()
+            .map(|a| a.iter().collect())
+            .unwrap_or_default();
+        (
+            regs,
+            raw,
+            self.cur_min,
+            self.num_at_cur_min,
+            aux,
+            self.estimator.hip_accum(),
+            self.estimator.kxq0(),
+            self.estimator.kxq1(),
+            self.estimator.is_out_of_order(),
+        )
+    }
+}
+
 #[cfg(test)]
 mod tests {
     use super::*;
